@@ -11,6 +11,7 @@ import GormModel.Gen.TxFacts
 import GormModel.Lemmas.TxFault
 import GormModel.Gen.StageSinks
 import GormModel.Lemmas.Stages
+import GormModel.Gen.EnclFacts
 namespace Gorm
 open Gen
 
@@ -323,6 +324,155 @@ example :
     (TxF.runWrite false .ok
       ([(0, ⟨none, none, none, false, none⟩), (4, ⟨none, none, some "CHECK constraint failed", false, none⟩),
         (0, ⟨none, none, none, false, none⟩)].map (fun p => Stg.stmtErr p.1 p.2)) none none).log = ["B", "S", "S!", "R"] := by
+  decide
+
+/-! ### WHERE the write runs: the enclosing context (Gen/EnclFacts.lean, Model/Stages.lean `Ctx` … `createFin`) -/
+
+/-- the wrapping decision of `CreateInBatches`: exactly ONE `if` hands `callFc` on, the wrapper is skipped under
+    `tx.SkipDefaultTransaction || reflectLen <= batchSize` and under nothing else (in particular not because the
+    handle is already inside a transaction), and the other branch is `tx.Transaction(callFc)`;
+    `Create` delegates to `CreateInBatches` exactly when `CreateBatchSize > 0` -/
+theorem C05_batch_wrap_decision :
+    cibWrapDecision = [("tx.SkipDefaultTransaction || reflectLen <= batchSize",
+        ["callFc(tx.Session(&Session{}))"], ["tx.Transaction(callFc)"])] ∧
+    createDelegation = [(["db.CreateBatchSize > 0"], "db.CreateInBatches(value, db.CreateBatchSize)")] ∧
+    cibBatchCalls.map (·.1) = ["tx.getInstance()", "reflectValue.Slice(i, ends).Interface()",
+        "reflectValue.Slice(i, ends)", "subtx.callbacks.Create().Execute(subtx)"] := by
+  decide
+
+/-- `Transaction`: SAVEPOINT under "pool is a TxCommitter" and `!db.DisableNestedTransaction` only; the block runs in
+    both branches; BEGIN otherwise, COMMIT only when the block returned nil -/
+theorem C05_tx_block_calls :
+    txBlockCalls =
+      [ ("db.SavePoint", ["ok", "committer != nil", "!db.DisableNestedTransaction"], false),
+        ("db.RollbackTo", [], true),
+        ("fc", ["ok", "committer != nil"], false),
+        ("db.Begin", [], false),
+        ("tx.Rollback", [], true),
+        ("fc", ["tx.Error == nil"], false),
+        ("tx.Commit", ["tx.Error == nil", "err == nil"], false) ] := by
+  decide
+
+/-- the sources `Stg.createInBatches` / `Stg.createFin` / `Stg.blockWrap` + `Stg.under` transcribe (regenerated text
+    compared literally) -/
+theorem C05_batch_sources :
+    createInBatchesSrc = "{ reflectValue := reflect.Indirect(reflect.ValueOf(value)) switch reflectValue.Kind() { case reflect.Slice, reflect.Array: var rowsAffected int64 tx = db.getInstance() reflectLen := reflectValue.Len() callFc := func(tx *DB) error { for i := 0; i < reflectLen; i += batchSize { ends := i + batchSize if ends > reflectLen { ends = reflectLen } subtx := tx.getInstance() subtx.Statement.Dest = reflectValue.Slice(i, ends).Interface() subtx.callbacks.Create().Execute(subtx) if subtx.Error != nil { return subtx.Error } rowsAffected += subtx.RowsAffected } return nil } if tx.SkipDefaultTransaction || reflectLen <= batchSize { tx.AddError(callFc(tx.Session(&Session{}))) } else { tx.AddError(tx.Transaction(callFc)) } tx.RowsAffected = rowsAffected default: tx = db.getInstance() tx.Statement.Dest = value tx = tx.callbacks.Create().Execute(tx) } return }" ∧
+    createFinisherSrc = "{ if db.CreateBatchSize > 0 { return db.CreateInBatches(value, db.CreateBatchSize) } tx = db.getInstance() tx.Statement.Dest = value return tx.callbacks.Create().Execute(tx) }" ∧
+    transactionSrc = "{ panicked := true if committer, ok := db.Statement.ConnPool.(TxCommitter); ok && committer != nil { if !db.DisableNestedTransaction { spID := new(maphash.Hash).Sum64() err = db.SavePoint(fmt.Sprintf(\"sp%d\", spID)).Error if err != nil { return } defer func() { if panicked || err != nil { db.RollbackTo(fmt.Sprintf(\"sp%d\", spID)) } }() } err = fc(db.Session(&Session{NewDB: db.clone == 1})) } else { tx := db.Begin(opts...) if tx.Error != nil { return tx.Error } defer func() { if panicked || err != nil { tx.Rollback() } }() if err = fc(tx); err == nil { panicked = false return tx.Commit().Error } } panicked = false return }" := by
+  refine ⟨?_, ?_, ?_⟩ <;> rfl
+
+open Stg in
+/-- MAIN (enclosing context): a CreateInBatches / Create-with-batch-size of several batches that ends with an error
+    leaves the view of the ENCLOSING transaction (at top level: the database) exactly as it was before the write –
+    whatever the earlier batches wrote, whichever statement of whichever batch failed, even if the failing statement
+    took effect before it was reported – in every context in which a wrapper is available: default transaction on,
+    and inside a caller's transaction SAVEPOINTs not disabled.  Everything the enclosing transaction did before
+    (`v.rows`) is kept. -/
+theorem C05_enclosed_batches_failed_unchanged (c : Ctx) (len batch : Nat) (v : View) (bs : List (List W))
+    (hs : c.skipDefault = false) (hb : batch < len) (hn : c.inTx = true → c.disableNested = false)
+    (he : (createInBatches c len batch v bs).err ≠ none) :
+    (createInBatches c len batch v bs).rows = v.rows := by
+  have hcond : (c.skipDefault || decide (len ≤ batch)) = false := by
+    simp [hs, Nat.not_le.mpr hb]
+  unfold createInBatches at he ⊢
+  simp only [hcond, Bool.false_eq_true, if_false] at he ⊢
+  exact under_protected _ _ _ (blockWrap_ne_none c hn) he
+
+open Stg in
+/-- a single pipeline run (Create / Save / Update / Delete with its association statements and hooks) at top level –
+    plain handle, `db.Connection` handle, PrepareStmt handle: every pool that can begin – that ends with an error
+    leaves the database as it was -/
+theorem C05_enclosed_toplevel_write_failed_unchanged (c : Ctx) (v : View) (ws : List W)
+    (hs : c.skipDefault = false) (ht : c.inTx = false)
+    (he : (pipeline c v ws).err ≠ none) : (pipeline c v ws).rows = v.rows := by
+  unfold pipeline at he ⊢
+  have : implicitWrap c = .ownTx := by simp [implicitWrap, hs, ht]
+  rw [this] at he ⊢
+  exact under_protected _ _ _ (by simp) he
+
+open Stg in
+/-- without a failure the write applies completely in EVERY context (wrappers never lose rows) -/
+theorem C05_enclosed_no_failure_applies (c : Ctx) (len batch : Nat) (v : View) (bs : List (List W))
+    (hv : v.err = none) (h : bs.all (fun b => b.all (fun w => w.fail.isNone)) = true) :
+    (createInBatches c len batch v bs).err = none ∧
+    (createInBatches c len batch v bs).rows = v.rows ++ bs.flatten.map (·.row) := by
+  unfold createInBatches
+  split
+  · exact runBatches_allOk c v bs hv h
+  · cases hw : blockWrap c with
+    | none => exact runBatches_allOk _ v bs hv h
+    | ownTx =>
+      have := runBatches_allOk { c with inTx := true } { v with log := v.log ++ ["B"] } bs hv h
+      simp only [under]; rw [this.1]; exact ⟨rfl, this.2⟩
+    | savepoint =>
+      have := runBatches_allOk { c with inTx := true } { v with log := v.log ++ ["SP"] } bs hv h
+      simp only [under]; rw [this.1]; exact ⟨this.1, this.2⟩
+
+open Stg in
+/-- COUNTEREXAMPLE (configuration latitude, not "default settings"): with `DisableNestedTransaction` a
+    CreateInBatches issued inside a caller's transaction has no wrapper – batch 1 stays in the caller's transaction
+    when batch 2 fails -/
+theorem C05_enclosed_batches_nested_disabled_counterexample :
+    let c : Ctx := { inTx := true, skipDefault := false, disableNested := true }
+    let r := createInBatches c 3 2 { rows := [7], err := none, log := [] }
+      [[⟨1, none, false⟩, ⟨2, none, false⟩], [⟨3, some "CHECK constraint failed", false⟩]]
+    r.err ≠ none ∧ r.rows = [7, 1, 2] ∧ r.log = ["S", "S", "S!"] := by
+  decide
+
+open Stg in
+/-- COUNTEREXAMPLE (finding F33-C05-no-savepoint-for-write-inside-transaction): a single pipeline run of more than one
+    statement – parent row, then an association row the database refuses – issued inside a caller's transaction:
+    `BeginTransaction` ignores `ErrInvalidTransaction`, no SAVEPOINT is taken, the parent row stays in the caller's
+    transaction although the write reported an error.  The same for a CreateInBatches whose slice fits one batch. -/
+theorem C05_enclosed_write_in_tx_counterexample :
+    let c : Ctx := { inTx := true, skipDefault := false, disableNested := false }
+    let v : View := { rows := [7], err := none, log := [] }
+    let ws : List W := [⟨1, none, false⟩, ⟨2, some "CHECK constraint failed", false⟩]
+    (pipeline c v ws).err ≠ none ∧ (pipeline c v ws).rows = [7, 1] ∧
+    (createInBatches c 1 2 v [ws]).err ≠ none ∧ (createInBatches c 1 2 v [ws]).rows = [7, 1] ∧
+    -- whereas two batches get the SAVEPOINT:
+    (createInBatches c 2 1 v [[⟨1, none, false⟩], [⟨2, some "CHECK constraint failed", false⟩]]).rows = [7] ∧
+    (createInBatches c 2 1 v [[⟨1, none, false⟩], [⟨2, some "CHECK constraint failed", false⟩]]).log
+      = ["SP", "S", "S!", "RT"] := by
+  decide
+
+open Stg in
+/-- PARTIAL: outside the pattern of F33 (and with default settings) every write is all-or-nothing towards its
+    enclosing context: `Ctx.protects` = default transaction on ∧ (not inside a caller's transaction ∨ several batches
+    with SAVEPOINTs allowed).  `len ≤ batch` means the slice fits one batch (`bs.length ≤ 1`). -/
+theorem C05_enclosed_write_atomic_partial (c : Ctx) (len batch : Nat) (v : View) (bs : List (List W))
+    (hp : c.protects len batch = true) (hone : len ≤ batch → bs.length ≤ 1)
+    (he : (createInBatches c len batch v bs).err ≠ none) :
+    (createInBatches c len batch v bs).rows = v.rows := by
+  simp only [Ctx.protects, Bool.and_eq_true, Bool.not_eq_true', Bool.or_eq_true, decide_eq_true_eq] at hp
+  obtain ⟨hs, hp⟩ := hp
+  by_cases hb : batch < len
+  · rcases hp with ht | ⟨_, hd⟩
+    · exact C05_enclosed_batches_failed_unchanged c len batch v bs hs hb (by simp [ht]) he
+    · exact C05_enclosed_batches_failed_unchanged c len batch v bs hs hb (fun _ => hd) he
+  · have hle : len ≤ batch := Nat.le_of_not_lt hb
+    have ht : c.inTx = false := by
+      rcases hp with ht | ⟨h1, _⟩
+      · exact ht
+      · exact absurd h1 hb
+    have hcond : (c.skipDefault || decide (len ≤ batch)) = true := by simp [hle]
+    unfold createInBatches at he ⊢
+    simp only [hcond, if_true] at he ⊢
+    match bs, hone hle with
+    | [], _ => rfl
+    | [b], _ =>
+      rw [runBatches_single] at he ⊢
+      exact C05_enclosed_toplevel_write_failed_unchanged c v b hs ht he
+
+/-- non-vacuity: top level, three batches, the third refused: BEGIN … ROLLBACK and nothing stays; inside a caller's
+    transaction that already wrote row 7: SAVEPOINT … ROLLBACK TO and row 7 stays -/
+example :
+    (Stg.createInBatches { inTx := false, skipDefault := false, disableNested := false } 3 1
+      { rows := [], err := none, log := [] }
+      [[⟨1, none, false⟩], [⟨2, none, false⟩], [⟨3, some "boom", true⟩]]).log = ["B", "S", "S", "S!", "R"] ∧
+    (Stg.createInBatches { inTx := true, skipDefault := false, disableNested := false } 3 1
+      { rows := [7], err := none, log := [] }
+      [[⟨1, none, false⟩], [⟨2, none, false⟩], [⟨3, some "boom", true⟩]]).rows = [7] := by
   decide
 
 end Gorm
